@@ -236,6 +236,11 @@ def readFromStream(substrate, size=-1, context=None):
         Input stream is exhausted
     """
     while True:
+        if size > sys.maxsize:
+            # not every stream object objects to such a size by itself
+            raise error.PyAsn1Error(
+                'Cannot read %s octets at once' % size)
+
         # this will block unless stream is non-blocking
         try:
             received = substrate.read(size)
